@@ -18,9 +18,9 @@ Inductive rres :=
 | RKernel (r : option nat)            (* result of a TopologyKernel call *)
 | RThrow                              (* std::runtime_error *)
 | RRejected                           (* not a library call: the script names a dead mesh / a dropped handle / an index out of range *)
-| RUB (why : nat).                    (* undefined behaviour in the library: 1 = an empty std::optional is dereferenced (GK:218-219),
+| RUB (why : nat).                    (* undefined behaviour in the library:
                                          2 = std::copy writes past the end of the position vector (GK:69-70, 100-101),
-                                         3 = position_ missing (unreachable: every constructed mesh has one) *)
+                                         3 = position_ missing (unreachable: every constructed mesh has one), 1 = dead mesh id (unreachable) *)
 
 (* ---------------------------------------------------------------- internal_find_property (RMT:127-147) *)
 
@@ -130,14 +130,14 @@ Definition clone_persistent_from (m' src : nat) (w : world) : world :=
 
 (* ---------------------------------------------------------------- GeometryKernel: make_prop, position copy *)
 
-(* GK:216-220 create_shared_property<VecT, Vertex>("ovm:position", VecT(0)); the assert is compiled out and the
-   optional is dereferenced: None here means "empty optional dereferenced" *)
+(* GK:216-220 request_property<VecT, Vertex>("ovm:position", VecT(0)): the existing shared property of that name
+   (a clone of a persistent position property of the source) or a new shared one.  None only for a dead mesh id. *)
 Definition make_prop (m : nat) (w : world) : option (world * nat) :=
   match get_mesh w m with
   | None => None
   | Some r =>
       match find_prop w m KV TVec POSNAME with
-      | Some _ => None
+      | Some s => Some (w, s)
       | None => Some (create w m r KV TVec POSNAME 0%Z true)
       end
   end.
@@ -238,7 +238,12 @@ Definition destroy_mesh (m : nat) (w : world) : world * rres :=
       | None => (w, RRejected)
       | Some r2 =>
           let w3 := fold_left (fun w s => detach m s w) (m_tracked r2) w2 in
-          (with_meshes (upd m None (meshes w3)) w3, ROk)
+          (* whatever the persistent set still owns (only storages of OTHER meshes, put there by an out-of-contract
+             set_persistent; nothing in a well-formed history: RegistryProofs.destroy_rest_nil) *)
+          let rest := match get_mesh w3 m with Some r3 => m_pers r3 | None => [] end in
+          let w4 := upd_mesh m (with_mpers []) w3 in
+          let w5 := fold_left (fun w s => release s w) rest w4 in
+          (with_meshes (upd m None (meshes w5)) w5, ROk)
       end
   end.
 
@@ -325,19 +330,21 @@ Definition rstep (w : world) (o : rop) : world * rres :=
           | None => let '(w1, s) := create w m r k t n d (negb (n =? 0)) in ret_handle s w1
           end
       end
-  | CreateShared m k t n d =>                                                  (* RMT:185-193 *)
+  | CreateShared m k t n d =>                                                  (* RMT:187-197 *)
       match get_mesh w m with
       | None => (w, RRejected)
       | Some r =>
+          if n =? 0 then (w, RNoHandle) else                                   (* 191-192 *)
           match find_prop w m k t n with
           | Some _ => (w, RNoHandle)
           | None => let '(w1, s) := create w m r k t n d true in ret_handle s w1
           end
       end
-  | CreatePersistent m k t n d =>                                              (* RMT:173-183 *)
+  | CreatePersistent m k t n d =>                                              (* RMT:173-185 *)
       match get_mesh w m with
       | None => (w, RRejected)
       | Some r =>
+          if n =? 0 then (w, RNoHandle) else                                   (* 177-178 *)
           match find_prop w m k t n with
           | Some _ => (w, RNoHandle)
           | None =>
